@@ -349,6 +349,17 @@ class CVIART(BaseART):
         """
         return self.base_module.post_step_fit(X)
 
+    def partial_fit(self, *args, **kwargs):
+        """Not supported: the validity index is computed over the whole data set.
+
+        Raises
+        ------
+        NotImplementedError
+            CVIART can only be trained with fit.
+
+        """
+        raise NotImplementedError("CVIART can only be trained with fit")
+
     def step_fit(
         self,
         x: np.ndarray,
